@@ -87,7 +87,19 @@ fn payload(i: usize, n: usize, salt: u8, style: u8) -> Vec<u8> {
     v
 }
 
+impl crate::ctx::WitnessSrc for Case {
+    fn witness(&self) -> Value {
+        self.to_json()
+    }
+}
+
 pub fn check_case(ctx: &mut Ctx, c: &Case) {
+    let opened = ctx.wd.enter_case_src("tcp-buffer-case", c);
+    check_case_inner(ctx, c);
+    ctx.wd.leave_case(opened);
+}
+
+fn check_case_inner(ctx: &mut Ctx, c: &Case) {
     ctx.eval();
     let w = || c.to_json();
     let frames: Vec<Vec<u8>> = c.frames.iter().enumerate().map(|(i, n)| payload(i, *n, c.salt, c.style)).collect();
